@@ -511,6 +511,9 @@ namespace bloch::compiler {
         }
 
         if (expected.className.empty()) {
+            // a class reference or an array never converts to a primitive parameter
+            if (nonPrimitiveIntoPrimitive(expected, actual))
+                return std::nullopt;
             if (expected.value == ValueType::Unknown || actual.value == ValueType::Unknown)
                 return 0;
             if (actual.className.empty()) {
